@@ -100,6 +100,7 @@ func c02Live(p Params) func() {
 	event := p.Get("event", "none")
 	waitChan := p.Get("wait", "done") == "chan"
 	hookFail := p.Get("hookfail", "0") == "1"
+	shared := p.Get("shared", "0") == "1" // all calls deliver to one completion channel whose capacity is the number of calls
 	var reqLen, repLen int
 	body := func(calib bool) func() {
 		return func() {
@@ -133,9 +134,13 @@ func c02Live(p Params) func() {
 			}
 			calls := make([]*callRec, n)
 			var ths []*vsched.Thread
+			sharedCh := make(chan erpc.CallCmd, n)
 			for i := 0; i < n; i++ {
 				i := i
 				c := &callRec{ch: make(chan erpc.CallCmd, 4), arg: fmt.Sprintf("a%d", i), res: new(string)}
+				if shared {
+					c.ch = sharedCh
+				}
 				calls[i] = c
 				ths = append(ths, world.Go(fmt.Sprintf("caller%d", i), func() {
 					c.cmd = cs.AsyncCall("/echo_handler", &c.arg, c.res, c.ch)
@@ -174,8 +179,30 @@ func c02Live(p Params) func() {
 			cli.Close()
 			srv.Close()
 			vsched.Quiesce()
-			for i, c := range calls {
-				checkCall(i, c, ev == "none" && !hookFail)
+			if shared {
+				// one channel for all calls: every call is delivered to it exactly once
+				delivered := map[erpc.CallCmd]int{}
+				for len(sharedCh) > 0 {
+					delivered[<-sharedCh]++
+				}
+				for i, c := range calls {
+					if c.cmd == nil || !world.IsDone(c.cmd) {
+						vsched.Failf("call %d never completed after the terminal event; %s", i, vsched.BlockedDesc())
+					}
+					if delivered[c.cmd] != 1 {
+						vsched.Failf("call %d delivered %d times to the shared completion channel (want exactly 1)", i, delivered[c.cmd])
+					}
+					if st := c.cmd.Status(); st.OK() && *c.res != "echo:"+c.arg {
+						vsched.Failf("call %d: OK status but result %q", i, *c.res)
+					} else if !st.OK() && ev == "none" && !hookFail {
+						vsched.Failf("call %d: no fault was injected but status is %s", i, world.StatStr(st))
+					}
+					vsched.Logf("call%d=%s", i, statClass(c.cmd.Status()))
+				}
+			} else {
+				for i, c := range calls {
+					checkCall(i, c, ev == "none" && !hookFail)
+				}
 			}
 			if l := vsched.Live(); l != 0 {
 				vsched.Failf("%d goroutines still blocked after both peers were closed: %s", l, vsched.BlockedDesc())
